@@ -524,7 +524,7 @@ func (x *Exec) step(st *State) []*State {
 	case *ssa.Alloc:
 		fr.regs[in] = x.alloc(st, in.Type().(*types.Pointer).Elem(), in.Type())
 		if in.Comment != "" {
-			fr.env[in.Comment] = envEntry{v: fr.regs[in], isAddr: true}
+			fr.env[in.Comment] = envEntry{v: fr.regs[in], isAddr: true, pos: in.Pos()}
 		}
 	case *ssa.Phi:
 		// handled at block entry
@@ -678,10 +678,13 @@ func (x *Exec) debugRef(st *State, fr *Frame, in *ssa.DebugRef) {
 	}
 	if old, ok := fr.env[id.Name]; ok && old.isAddr && !in.IsAddr {
 		// the variable lives in a heap cell (captured / address taken): value snapshots at single reads
-		// must not replace the address binding
-		return
+		// must not replace the address binding - unless this is a different variable of the same name
+		// (e.g. the `kv` of a later loop), which then becomes the current meaning of the name
+		if old.pos == token.NoPos || old.pos == in.Object().Pos() {
+			return
+		}
 	}
-	fr.env[id.Name] = envEntry{v: v, isAddr: in.IsAddr}
+	fr.env[id.Name] = envEntry{v: v, isAddr: in.IsAddr, pos: in.Object().Pos()}
 }
 
 func (x *Exec) safetyOn() bool { return x.rootC != nil && x.rootC.Safety }
